@@ -26,6 +26,7 @@ func main() {
 		"extract":      func(out string, _ int64, _ string) error { return extract.Run(cli.Repo, out) },
 		"time":         engtime.Run,
 		"node":         engnode.Run,
+		"pending":      engnode.RunPending,
 		"net":          engnode.RunNet,
 		"ticker":       engnode.RunTicker,
 		"reshare":      engnode.RunReshare,
